@@ -17,8 +17,10 @@ from typing import Any, Dict  # noqa: used by string annotations of the generate
 from mc.common import Counter, pmap, violation
 
 PROP = "C18"
-PATHS = {"plain": "x", "dotted": "child.x", "item": 'd["k"]', "mixed": 'child.d["k"]'}
-FALLBACK = [0]
+PATHS = {"plain": "x", "dotted": "child.x", "item": 'd["k"]', "mixed": 'child.d["k"]',
+         "keydot": 'e["k"].x', "sqdot": "d['k.k']"}
+ATTR_ENDED = ("plain", "dotted", "keydot")  # the last step is an attribute (managed on spec hosts)
+FALLBACK = [[0]]  # nested: a shallow copy of the fallback still shares the inner list
 
 
 class MyWarning(UserWarning):
@@ -36,7 +38,7 @@ def make_host(cfg):
     if cfg["transform"]:
         kw["transform"] = plus100
     if cfg["fallback"]:
-        kw["fallback"] = list(FALLBACK)
+        kw["fallback"] = copy.deepcopy(FALLBACK)
     path = PATHS[cfg["path"]]
     if cfg["deprecated"]:
         alias = DeprecatedAlias(path, warning_cls=MyWarning, **kw)
@@ -54,8 +56,9 @@ def make_host(cfg):
 
             def __init__(self):
                 self.x = 1
-                self.d = {"k": 1}
+                self.d = {"k": 1, "k.k": 1}
                 self.child = Child()
+                self.e = {"k": Child()}
 
         return Host
     @spec_class
@@ -67,10 +70,11 @@ def make_host(cfg):
     ann_a = Any if (cfg["fallback"]) else int  # a list fallback must be admissible for the alias' own type
 
     ns = {
-        "__annotations__": {"x": int, "d": Dict[str, int], "child": SChild, "a": ann_a},
+        "__annotations__": {"x": int, "d": Dict[str, int], "child": SChild, "e": Dict[str, SChild], "a": ann_a},
         "x": 1,
-        "d": {"k": 1},
+        "d": {"k": 1, "k.k": 1},
         "child": SChild(),
+        "e": {"k": SChild()},
         "a": alias,
     }
     Host = spec_class(type("SHost", (), ns))
@@ -83,39 +87,45 @@ def make_host(cfg):
 MISSING_T = "<missing>"
 
 
+def _holder(obj, path):
+    """-> (container, key, is_item) of the last step of the path"""
+    if path == "plain":
+        return obj, "x", False
+    if path == "dotted":
+        return obj.child, "x", False
+    if path == "item":
+        return obj.d, "k", True
+    if path == "mixed":
+        return obj.child.d, "k", True
+    if path == "keydot":
+        return obj.e["k"], "x", False
+    if path == "sqdot":
+        return obj.d, "k.k", True
+    raise ValueError(path)
+
+
 def target_get(obj, path):
     try:
-        if path == "plain":
-            return obj.x
-        if path == "dotted":
-            return obj.child.x
-        if path == "item":
-            return obj.d["k"]
-        return obj.child.d["k"]
+        h, k, item = _holder(obj, path)
+        return h[k] if item else getattr(h, k)
     except (AttributeError, KeyError):
         return MISSING_T
 
 
 def target_set(obj, path, v):
-    if path == "plain":
-        obj.x = v
-    elif path == "dotted":
-        obj.child.x = v
-    elif path == "item":
-        obj.d["k"] = v
+    h, k, item = _holder(obj, path)
+    if item:
+        h[k] = v
     else:
-        obj.child.d["k"] = v
+        setattr(h, k, v)
 
 
 def target_del(obj, path):
-    if path == "plain":
-        del obj.x
-    elif path == "dotted":
-        del obj.child.x
-    elif path == "item":
-        del obj.d["k"]
+    h, k, item = _holder(obj, path)
+    if item:
+        del h[k]
     else:
-        del obj.child.d["k"]
+        delattr(h, k)
 
 
 class RefAlias:
@@ -134,7 +144,7 @@ class RefAlias:
 
     def target_resets_to(self):
         # what `del target` leaves: spec hosts restore the class default for managed attributes
-        if self.spec() and self.cfg["path"] in ("plain", "dotted"):
+        if self.spec() and self.cfg["path"] in ATTR_ENDED:
             return 1
         return MISSING_T
 
@@ -147,14 +157,14 @@ class RefAlias:
             if self.target != MISSING_T:
                 return ("value", plus100(self.target) if c["transform"] else self.target)
             if c["fallback"]:
-                return ("value", list(FALLBACK))
+                return ("value", copy.deepcopy(FALLBACK))
             return ("raise", {"AttributeError"})
         if n == "write_alias":
             v = op[1]
             if self.spec() and not c["fallback"] and not isinstance(v, int):
                 return ("raise", {"TypeError"})
             if c["passthrough"]:
-                if self.spec() and not isinstance(v, int) and c["path"] in ("plain", "dotted"):
+                if self.spec() and not isinstance(v, int) and c["path"] in ATTR_ENDED:
                     # the write lands on a managed int attribute; item paths write straight into a
                     # plain dict, which bypasses the spec-class API (out of scope for type checks)
                     return ("raise", {"TypeError", "ValueError"})
@@ -202,14 +212,18 @@ class RefAlias:
 
 
 def ops_for(cfg):
-    ops = [["read_alias"], ["write_alias", 5], ["write_alias", 6], ["delete_alias"], ["read_target"],
+    # alias writes 1 and 2 coincide with target values (a local override equal to the current view is
+    # still an override); 101 coincides with the transformed view of target 1
+    ops = [["read_alias"], ["write_alias", 5], ["write_alias", 1], ["write_alias", 2], ["delete_alias"], ["read_target"],
            ["write_target", 1], ["write_target", 2], ["delete_target"]]
+    if cfg["transform"]:
+        ops.append(["write_alias", 101])
     if cfg["fallback"]:
         ops.append(["read_alias_mutate"])
     if cfg["host"] == "plain" or cfg["fallback"]:
         ops.append(["write_alias", None])  # a local override / forwarded value of exactly None is a value
     if cfg["host"] == "spec":
-        ops += [["write_alias", "bad"], ["cow_alias", 5], ["deepcopy"], ["reset"]]
+        ops += [["write_alias", "bad"], ["cow_alias", 5], ["cow_alias", 1], ["deepcopy"], ["reset"]]
         if cfg["path"] == "plain":
             ops.append(["cow_target", 2])
     return ops
@@ -229,6 +243,8 @@ def fingerprint(obj, path):
     for k, v in sorted(d.items()):
         if hasattr(v, "__dict__") and not isinstance(v, type):
             out.append((k, sorted((kk, repr(vv)) for kk, vv in vars(v).items())))
+        elif isinstance(v, dict) and any(hasattr(x, "__dict__") for x in v.values()):
+            out.append((k, sorted((kk, sorted((a, repr(b)) for a, b in vars(vv).items())) for kk, vv in v.items())))
         else:
             out.append((k, repr(v)))
     return repr(out)
@@ -247,6 +263,8 @@ def impl_apply(obj, op, cfg):
                 v = obj.a
                 r = ("value", copy.deepcopy(v))
                 if isinstance(v, list):
+                    if v and isinstance(v[0], list):
+                        v[0].append(98)
                     v.append(99)
             elif n == "write_alias":
                 obj.a = op[1]
@@ -363,6 +381,13 @@ def step(cfg, hist, op, out):
 def explore(cfg):
     C = Counter()
     ops = ops_for(cfg)
+    try:
+        make_host(cfg)
+    except Exception as e:  # a dotted / ["key"] path the alias refuses to follow at all
+        C.inc("evaluations")
+        C.viol(violation(PROP, dict(cfg, kind="path_rejected", got=fam(e)), {"raised": repr(e)[:200], "path": PATHS[cfg["path"]]},
+                         {"cfg": cfg, "history": [], "op": ["read_alias"]}))
+        return C.rec
     obj, ref = build(cfg, ())
     seen = {(ref.key(), fingerprint(obj, cfg["path"])): ()}
     frontier = [()]
@@ -395,6 +420,11 @@ def explore(cfg):
 
 def run_case(case):
     out = []
+    try:
+        make_host(case["cfg"])
+    except Exception as e:
+        cfg = case["cfg"]
+        return [violation(PROP, dict(cfg, kind="path_rejected", got=fam(e)), {"raised": repr(e)[:200], "path": PATHS[cfg["path"]]}, case)]
     step(case["cfg"], tuple(case["history"]), case["op"], out)
     return out
 
@@ -409,8 +439,8 @@ def main(run):
     run.add(
         configurations=len(cfgs),
         rule=(
-            "fixpoint BFS per alias configuration (2 hosts x Alias/DeprecatedAlias x passthrough x transform x fallback x 4 path "
-            "shapes = 128): ops {read alias (and mutate the returned fallback), write alias 5/6/ill-typed, delete alias, "
+            "fixpoint BFS per alias configuration (2 hosts x Alias/DeprecatedAlias x passthrough x transform x fallback x 6 path "
+            "shapes (attribute, dotted, [\"key\"], dotted+key, key+dotted, single-quoted key containing a dot) = 192): ops {read alias (and mutate the returned nested fallback at both levels), write alias 5 / values equal to the current (transformed) view / ill-typed, delete alias, "
             "read/write/delete target through its own path, copy-on-write helper on alias and target, deepcopy, reset}; state = "
             "(reference (target, override), real instance fingerprint); non-trivial = a new distinct state"
         ),
